@@ -150,6 +150,7 @@ func main() {
 	r.Require("c04-writes-scanned", 5000)
 	r.Require("c04-secret-patterns", 3000)
 	r.Require("c04-conversions-checked", 5)
+	r.Require("c04-conversions-retried-after-a-failed-attempt", 3)
 	r.Require("op:importpriv", 30)
 	os.Exit(r.Finish())
 }
